@@ -248,6 +248,13 @@ def impl(case):
             r2 = JsonImporter(dictimporter=DictImporter(nodecls=cls)).read(io.StringIO(text))
             jout["import"] = tree_canon(r1)
             jout["read_eq_import"] = tree_canon(r2) == tree_canon(r1)
+            # json.loads / json.load accept UTF-8 bytes and binary file handles as well: so must the importer
+            if not any(0xD800 <= ord(ch) <= 0xDFFF for ch in text):
+                raw = text.encode("utf-8")
+                r3 = JsonImporter(dictimporter=DictImporter(nodecls=cls)).import_(raw)
+                r4 = JsonImporter(dictimporter=DictImporter(nodecls=cls)).read(io.BytesIO(raw))
+                if tree_canon(r3) != tree_canon(r1) or tree_canon(r4) != tree_canon(r1):
+                    jout["read_eq_import"] = False
             jout["dict"] = ddata_canon(json.loads(text))
         except TypeError:
             jout["import"] = "TypeError"
